@@ -407,12 +407,18 @@ def allDigits (s : List Char) : Bool := !s.isEmpty && s.all isDigit
 
 def digitsVal (s : List Char) : Nat := s.foldl (fun a c => a * 10 + digitVal c) 0
 
-/-- `digits_but_not_number`: leading zero followed by digits is a string -/
-def digitsButNotNumber (s : List Char) : Bool :=
-  let t := match s with | '-' :: r => r | '+' :: r => r | _ => s
-  match t with
+/-- `strip_prefix(['-', '+'])` -/
+def stripSign : List Char → List Char
+  | '-' :: r => r
+  | '+' :: r => r
+  | s => s
+
+def leadingZeroNumber : List Char → Bool
   | '0' :: r => !r.isEmpty && r.all isDigit
   | _ => false
+
+/-- `digits_but_not_number`: leading zero followed by digits is a string -/
+def digitsButNotNumber (s : List Char) : Bool := leadingZeroNumber (stripSign s)
 
 /-- decimal integers as serde_yaml reads them (`parse_signed_int`, radix 10 only) -/
 def intOfText (s : List Char) : Option Int :=
@@ -429,7 +435,7 @@ def takeDigits : List Char → List Char × List Char
 /-- syntactic shape of a finite decimal float accepted by Rust's `f64::from_str`, plus YAML's
 `.inf`/`.nan` forms (approximation used only to decide that a plain scalar is NOT a string) -/
 def floatLike (s : List Char) : Bool :=
-  let t := match s with | '-' :: r => r | '+' :: r => r | _ => s
+  let t := stripSign s
   if t = ['.', 'i', 'n', 'f'] || t = ['.', 'I', 'n', 'f'] || t = ['.', 'I', 'N', 'F'] then true
   else if s = ['.', 'n', 'a', 'n'] || s = ['.', 'N', 'a', 'N'] || s = ['.', 'N', 'A', 'N'] then true
   else
